@@ -69,6 +69,7 @@ class B(State):
 
 
 TYPES = {"A": A, "A2": A2, "B": B}
+_SUB = {t: type(T)(t + "Default", (T,), {"__module__": __name__}) for t, T in TYPES.items()}
 D_DEFAULT, D_MISSING, D_NOCTX, D_EXPLICIT = 91, 92, 93, 94
 
 
@@ -222,7 +223,9 @@ class World:
         self._root_level = self.root.level
         self.root.addHandler(self.cap)
         self.root.setLevel(logging.DEBUG)
-        self.explicit = {t: TYPES[t](v=77) for t in TYPES}
+        # the caller's explicit default is an instance of a SUBCLASS of the requested type (a valid T all the same)
+        self.explicit = {t: _SUB[t](v=77) for t in TYPES}
+        self.nprobe = 0
 
     # ---- helpers used from inside tasks
     def err_of(self, tag, cls=Err):
@@ -319,9 +322,17 @@ class World:
         if not self.probing:
             return {}
         p = {}
+        # every other probe asks with the explicit default FIRST and plainly afterwards: neither lookup may influence
+        # the other (a default-constructed instance must not shadow the explicit default, an explicit default must not
+        # be remembered for the plain lookup - here or in any other task that shares the state)
+        self.nprobe += 1
         for t in self.types:
-            p[t] = self.lookup(t)
-            p[t + "d"] = self.lookup(t, explicit=True)
+            if self.nprobe % 2:
+                p[t] = self.lookup(t)
+                p[t + "d"] = self.lookup(t, explicit=True)
+            else:
+                p[t + "d"] = self.lookup(t, explicit=True)
+                p[t] = self.lookup(t)
         p["ms"] = self.metrics_label()
         p["tg"] = self.group_id()
         return p
